@@ -245,6 +245,26 @@ theorem cleanup_failure_is_a_stop (cfg : Cfg) (w : World) (o : Op) (order : List
       · simp only at h2; subst h2; rfl
       · simp only at h2; subst h2; simp only [hj, if_true]
 
+/-- the same with the stop point and what the Commit loop does there made explicit (the premises of
+    `stopped_operation_resolved`) -/
+theorem cleanup_failure_stop_point {cfg : Cfg} {w w1 : World} {o : Op} {chs : List Change} (order : List Method) (nf : Bool)
+    (ht : tx1 cfg w o = .ok (w1, chs)) (hne : chs.isEmpty = false) :
+    ∃ k, (stepOpCleanupFails cfg w o order nf).1 = (stepOp cfg w o order (.stop k)).1 ∧
+      ((commitLoop (.stop k) chs order 0 w1.pub).2 = .stopped ∨
+        ∃ i, (commitLoop (.stop k) chs order 0 w1.pub).2 = .completed i ∧ i ≤ k) := by
+  obtain ⟨k, _, h1, h2⟩ := commitLoop_stop_witness (if nf = true then Fault.failNuts else Fault.none)
+    (by cases nf <;> simp) chs order 0 w1.pub
+  refine ⟨k, ?_, h2⟩
+  unfold stepOpCleanupFails
+  simp only [ht, hne, Bool.false_eq_true, if_false]
+  simp only [stepOp, ht, Fault.inTx1, stepOpCore]
+  rw [← h1]
+  generalize commitLoop (.stop k) chs order 0 w1.pub = r at h2
+  obtain ⟨p, ph⟩ := r
+  rcases h2 with h2 | ⟨j, h2, hj⟩
+  · simp only at h2; subst h2; rfl
+  · simp only at h2; subst h2; simp only [hj, if_true]
+
 /-! ### `sortDIDsByMethod`: the comparator is a strict weak order -/
 
 /-- the comparator without its (redundant) first branch -/
